@@ -528,25 +528,26 @@ func (e *Engine) emitGreedy(p *partition, survivors *[]*run) []map[string]any {
 	if len(p.pending) == 0 {
 		return nil // 默认贪婪模式每事件调用：无在途匹配时短路，避免无用 map 分配
 	}
-	active := make(map[int64]bool, len(*survivors))
-	for _, r := range *survivors {
-		active[r.startSeq] = true
-	}
-	var ready []int64
-	for s := range p.pending {
-		if !active[s] && s >= p.nextStart {
-			ready = append(ready, s)
-		}
-	}
-	sort.Slice(ready, func(i, j int) bool { return ready[i] < ready[j] })
 	var emitted []map[string]any
-	for _, s := range ready {
-		if s < p.nextStart {
-			continue // 被前一轮 SKIP 推进跳过（直接守卫，与 emitLazy 一致）
+	for {
+		minActive := maxInt64
+		for _, r := range *survivors {
+			if r.startSeq >= p.nextStart && r.startSeq < minActive {
+				minActive = r.startSeq
+			}
 		}
-		best := p.pending[s][0]
-		emitted = append(emitted, e.emitOne(p, best, survivors)...)
-		delete(p.pending, s)
+		best := maxInt64
+		for s := range p.pending {
+			if s >= p.nextStart && s < best {
+				best = s
+			}
+		}
+		if best == maxInt64 || best >= minActive {
+			break
+		}
+		c := p.pending[best][0]
+		delete(p.pending, best)
+		emitted = append(emitted, e.emitOne(p, c, survivors)...)
 	}
 	e.prunePending(p, p.nextStart)
 	return emitted
